@@ -63,7 +63,7 @@ def make_history(base, cfg, r, n_commits=None, kind=None):
     h = History()
     h.cfg = cfg
     kind = kind or r.choice(["plain", "plain", "spill", "overflow_inplace", "ddl", "checkpoint_restart",
-                             "passive_checkpoint", "grow_shrink", "header_pragmas", "freelist_drain", "wide_schema", "restart_after_rollback", "odd_rowids"])
+                             "passive_checkpoint", "grow_shrink", "header_pragmas", "freelist_drain", "wide_schema", "restart_after_rollback", "odd_rowids", "empty_out"])
     h.kind = kind
     ps = cfg["page_size"]
     if kind == "rootmove":
@@ -102,14 +102,16 @@ def make_history(base, cfg, r, n_commits=None, kind=None):
     con.execute(f"CREATE TABLE t0 ({', '.join(decl)})")
     tables["t0"] = (cols, alias)
     fresh_snap()
-    if r.random() < 0.5 and kind != "rootmove":      # (t0 must own the largest root page to be the one that moves)
+    if r.random() < 0.5 and kind not in ("rootmove", "empty_out"):      # (t0 must own the largest root page to be the one that moves; empty_out: single-frame commits)
         con.execute("CREATE INDEX i0 ON t0 (c1)")
         fresh_snap()
     base_rows = r.choice([0, 5, 40, 120])
-    if kind == "freelist_drain":
+    if kind in ("freelist_drain", "grow_shrink"):
         base_rows = r.choice([40, 120])
     if kind == "deep_append":
         base_rows = 1500 if ps <= 512 else 4000
+    if kind == "empty_out":
+        base_rows = 3
     if kind == "rootmove":
         base_rows = r.choice([1, 2, 3, 40])      # a single-page table: after the move none of its old pages is rewritten
 
@@ -138,7 +140,7 @@ def make_history(base, cfg, r, n_commits=None, kind=None):
             vals = [None if alias else 7] + ["w" * 20 for _ in cols[1:]]
             con.execute(f"INSERT INTO t0 ({','.join(cols)}) VALUES ({','.join('?' * ncols)})", vals)
     else:
-        ins(base_rows, big=r.random() < 0.5 and kind != "rootmove")
+        ins(base_rows, big=r.random() < 0.5 and kind not in ("rootmove", "empty_out"))
     if kind == "overflow_inplace":
         for _ in range(3):
             vals = [None if alias else 1] + [bytes(r.randint(0, 255) for _ in range(3 * ps + 17)) for _ in cols[1:]]
@@ -164,7 +166,7 @@ def make_history(base, cfg, r, n_commits=None, kind=None):
             op = r.choice(["insert", "update", "delete", "mixed"])
         con.execute("BEGIN")
         ids = [x[0] for x in con.execute("SELECT rowid FROM t0")]
-        if op == "insert" or (not ids and op not in ("freelist_drain", "odd_rowids", "wide_schema", "deep_append")):
+        if op == "insert" or (not ids and op not in ("freelist_drain", "odd_rowids", "wide_schema", "deep_append", "empty_out")):
             ins(r.randint(1, 30), big=r.random() < 0.3)
         elif op == "update":
             for rid in r.sample(ids, min(len(ids), r.randint(1, 8))) + ([0] if 0 in ids else []):
@@ -189,7 +191,9 @@ def make_history(base, cfg, r, n_commits=None, kind=None):
             v = row[0]
             if isinstance(v, bytes) and len(v) > 2 * ps:
                 b = bytearray(v)
-                b[-3] ^= 0xFF
+                # which overflow page is rewritten: the first one (the leaf page with the cell keeps its older version),
+                # the last one, one in the middle
+                b[[ps, -3, len(b) // 2][k % 3]] ^= 0xFF
                 con.execute(f"UPDATE t0 SET {cols[1]}=? WHERE rowid=?", (bytes(b), rid))
             else:
                 ins(2)
@@ -199,6 +203,10 @@ def make_history(base, cfg, r, n_commits=None, kind=None):
                 con.execute(f"CREATE TABLE d{k} (a INTEGER, b TEXT)")
                 tables[f"d{k}"] = (["a", "b"], False)
                 con.execute(f"INSERT INTO d{k} VALUES (1, 'x')")
+                # several schema changes in one transaction: the schema cookie advances by more than one
+                con.execute(f"CREATE INDEX dx{k} ON d{k} (a)")
+                con.execute(f"CREATE TABLE e{k} (z)")
+                tables[f"e{k}"] = (["z"], False)
             elif step == 1:
                 con.execute(f"CREATE INDEX di{k} ON t0 ({cols[-1]})")
             elif step == 2:
@@ -210,6 +218,13 @@ def make_history(base, cfg, r, n_commits=None, kind=None):
                     con.execute(f"DROP TABLE {victims[0]}")
                 else:
                     ins(3)
+        elif op == "empty_out":
+            # single-frame transactions whose page image ends in a long run of zero bytes: a one-page table emptied
+            # (secure_delete zeroes the freed cells) and refilled
+            if k % 2 == 0:
+                con.execute("DELETE FROM t0")
+            else:
+                ins(2)
         elif op == "wide_schema":
             # the schema b-tree has an interior root: DDL that edits a row on a left leaf leaves page 1 untouched
             step = k % 3
